@@ -84,14 +84,19 @@ claim("C03",
 claim("C08",
       "Rocq theorems: no action changes the static tables or pristine copies (C08_static); after ANY sequence of actions by any "
       "agents reset yields the initially loaded world (C08_restore: reset (play (load sc) l) = load sc), hence identical "
-      "observation sequences for the same script in every episode (C08_independent). Tie: correspondence on multi-episode walks "
+      "observation sequences for the same script in every episode (C08_independent); for the WHOLE game (coordinator model running "
+      "on the world model, Model/Game.v): C08_whole_game (whatever was played by however many agents in whatever interleaving, the "
+      "reset task leaves exactly the pristine scenario world), C08_whole_game_static. Tie: correspondence on multi-episode walks "
       "with resets (tables compared with the model after every reset) and a monitor comparing the implementation's tables after "
       "each reset with their initial condition.", W_NOTE + " Static addresses only (dynamic re-labelling is C13).", W_TECH, "DESIGN.md section 7, C08")
 claim("C11",
       "Rocq theorems over all interleaved action sequences of any number of agents: C11_invariant (every view stays well-formed: "
       "controlled <= known hosts, services only for known hosts, data only on controlled hosts; and anchored: hosts exist, services "
       "belong to the host's node, data is located on the host's node), C11_mono (networks, hosts, controlled hosts, data and blocks "
-      "per host never shrink), with the one-step lemmas. 'A returned view is never modified later' is a heap-aliasing statement the "
+      "per host never shrink), with the one-step lemmas; C11_whole_game (Proofs/CoordViews.v, Proofs/Game.v: in every reachable state of "
+      "the coordinator model running on the world model - joins, actions, departures, faults, rewards, resets in any interleaving - "
+      "every agent's stored view is well formed and anchored in the current world, given well-formed anchored start positions), "
+      "C11_lifting (the general principle: any world/view relation kept by the world model is kept by the whole game). 'A returned view is never modified later' is a heap-aliasing statement the "
       "value-semantic model cannot express: it is decided by deep snapshots of every GameState returned by register/step/reset "
       "re-compared after every later step (partial, labelled so).", W_NOTE, W_TECH, "DESIGN.md section 7, C11")
 claim("C12",
@@ -117,7 +122,9 @@ claim("C01",
       "barriers with its wait unreleased), C01_parked_have_agents; per-run obligation C01_dispatch_total (every action type incl. "
       "BlockIP is routed to a replying handler; default and parse-failure arms reply). C01_idle_unmet (barrier invariant K, Proofs/CoordBarrier.v: in every reachable idle state the barrier "
       "holding an unreleased wait is genuinely unmet - somebody has not finished / has not asked / the start event is clear - so "
-      "nothing waits for the server). Partial: the termination measure (every enabled task step sequence reaches an idle state) and "
+      "nothing waits for the server). C01_progress / C01_no_livelock (Proofs/CoordMeasure.v: a measure that strictly decreases with every task "
+      "step, so at most mu(s) task steps separate any reachable state from the next idle state or input: an answer whose barrier "
+      "is met is delivered after finitely many steps). Partial: "
       "'start event clear => fewer than required players' (false for an unconstrained scheduler; true under asyncio's FIFO start "
       "of handler tasks) are decided by the monitor (barrier conditions evaluated on the implementation's tables at every "
       "quiescent point).", C_NOTE, C_TECH, "DESIGN.md section 7, C01")
@@ -126,7 +133,8 @@ claim("C04",
       "TimeoutReached at the step limit, else unchanged), C04_step (counters, end rule incl. 'no attacker playing any more', final "
       "results wait at the rewards barrier), C04_reply, C04_absorbing (+frame: FORBIDDEN with the same view, reward, reason; no "
       "counter changes), C04_defender_reason; across labels, for every reachable state and every continuation: C04_stays_ended (ended, "
-      "step counter and view frozen until the reset task or departure), C04_one_label (complete case list of what one label can do "
+      "step counter and view frozen until the reset task or departure), C04_limit (Proofs/CoordLimit.v: in every reachable state an "
+      "agent with step limit m > 0 has at most m steps and has ended once it has m), C04_origin, C04_one_label (complete case list of what one label can do "
       "to one agent's record). Tie: trace-following correspondence; monitor: reference of the rule over all responses "
       "(reference goal check independent of coordinator.goal_check).", C_NOTE, C_TECH, "DESIGN.md section 7, C04")
 claim("C05",
@@ -153,10 +161,12 @@ claim("C07",
 claim("C09",
       "Rocq theorems: C09_garbage / C09_reject (every bad request - garbage, second join, join without agent_info or with an unknown "
       "role, game/reset before joining, invalid parameters - is answered BAD_REQUEST), C09_frame (and changes nothing but the "
-      "sender's response queue: agents, world, events, files, other connections untouched), C09_alive, C09_no_replay; per-run "
+      "sender's response queue: agents, world, events, files, other connections untouched), C09_others / C09_world (the handler of one address leaves every other agent's record untouched; only game actions and joins "
+      "touch the world), C09_alive, C09_no_replay; per-run "
       "obligations on the dispatcher source (parse failure replies and continues; default arm replies).", C_NOTE, C_TECH, "DESIGN.md section 7, C09")
 claim("C10",
-      "Rocq theorems: C10_forget (after the quit handler the address is in no per-agent table and every other agent's record is "
+      "Rocq theorems: C10_others (every label except the two background tasks leaves the records of all agents but at most one "
+      "exactly as they are), C10_forget (after the quit handler the address is in no per-agent table and every other agent's record is "
       "exactly as before), C10_slot/C10_count (slot released exactly once; counter = live connections in every reachable state), "
       "C10_tokens (a closed connection leaves only its forwarded QuitGame), C10_barriers, C10_rejoin; per-run obligation: every "
       "abnormal end of a connection forwards QuitGame. Partial: a peer vanishing while its request is parked is seen only at the next "
